@@ -605,10 +605,18 @@ func (v *visitor) ConditionalNode(node *ast.ConditionalNode) reflect.Type {
 	t1 := v.visit(node.Exp1)
 	t2 := v.visit(node.Exp2)
 
+	// With a nil arm the result is the other arm's type only if nil is a
+	// value of that type.
 	if t1 == nil && t2 != nil {
+		if !isNilable(t2) {
+			return interfaceType
+		}
 		return t2
 	}
 	if t1 != nil && t2 == nil {
+		if !isNilable(t1) {
+			return interfaceType
+		}
 		return t1
 	}
 	if t1 == nil && t2 == nil {
